@@ -860,6 +860,12 @@ impl Check for C18 {
             let k = chunk - np;
             let sc = &scs[(k / nb) as usize];
             let bound = bounds[(k % nb) as usize];
+            if bound >= 3 && sc.name.ends_with("[thread order reversed]") {
+                // the deepest bound is explored for the base thread order only
+                out.inc("mirrored_scenario_bound3_not_explored");
+                out.sample(J::obj(vec![("scenario", J::s(sc.name)), ("preemption_bound", J::i(bound)), ("explored", J::Bool(false))]));
+                return;
+            }
             install_scheduler_hook();
             let regs: Vec<Regex> = sc.patterns.iter().filter_map(|(p, f)| imp::compile(p, f, false).ok().map(|_| Regex::xpath(p, f).unwrap())).collect();
             if regs.len() != sc.patterns.len() {
